@@ -467,6 +467,12 @@ class EngineBuilder:
         pos_keys.extend(self.positions_included)
         pos_keys = [key for key in pos_keys if key not in self.positions_excluded]
 
+        if not pos_keys and self.positions_excluded:
+            # the engine would fall back to tracking the position keys of all kernels
+            raise RuntimeError(
+                "All position keys are excluded, no position would be tracked"
+            )
+
         return Engine(
             seeds=seeds,
             model_states=model_states,
